@@ -87,7 +87,7 @@ Con(name, c) ==
     [] name = "TBGe" -> TB("greedy", U8, 0, <<>>, c, TRUE, TRUE)
     [] name = "TBT" -> TB("term", U8, 0, <<0>>, c, FALSE, TRUE)
     [] name = "TBTe" -> TB("term", U8, 0, <<0>>, c, TRUE, TRUE)
-    [] name = "LenSw" -> [k |-> "lenswitch", ch |-> <<K(2, c), K(0, Null), K(-1, [k |-> "bytearray", p |-> U8])>>]
+    [] name = "LenSw" -> [k |-> "lenswitch", ch |-> <<K(2, c), K(0, Null), K(5, [k |-> "bytearray", p |-> U32])>>]
     [] name = "LenSwD" -> [k |-> "lenswitch", ch |-> <<K(3, U8), K(-1, c)>>]
     [] name = "EnumSw" -> [k |-> "enumswitch", e |-> U8, ch |-> <<K(0, c), K(1, U16)>>]
     [] name = "FlagSw" -> [k |-> "flagswitch", f |-> U8,
@@ -104,9 +104,11 @@ Con(name, c) ==
     [] name = "Adapt" -> [k |-> "adapter", c |-> c]
     \* ill-formed programs: no value is in their domain; Enc must say so and Dec must stay total
     [] name = "MisOpt" -> OptFlag("x", 1, c)
-    [] name = "MisTup" -> Tup(<<OptFlag("x", 1, c), CtxSw(0, "x", <<K(0, c)>>, <<>>)>>)
-    [] name = "MisSel" -> Tmpl(<<F("sel", c), F("o", OptFlag("sel", 1, U8)), F("b", CtxSw(0, "sel", <<K(0, U8)>>, <<>>))>>, FALSE)
-    [] name = "MisName" -> Tmpl(<<F("sel", U8), F("o", OptFlag("nosuch", 1, c)), F("b", CtxSw(0, "nosuch", <<K(0, c)>>, <<>>))>>, FALSE)
+    [] name = "MisTup" -> Tup(<<CtxSw(0, "x", <<K(0, c)>>, <<>>), OptFlag("x", 1, c)>>)
+    [] name = "MisSel" -> Tmpl(<<F("sel", c), F("o", OptFlag("sel", 1, U8))>>, FALSE)
+    [] name = "MisSel2" -> Tmpl(<<F("sel", c), F("b", CtxSw(0, "sel", <<K(0, U8)>>, <<>>))>>, FALSE)
+    [] name = "MisName" -> Tmpl(<<F("sel", U8), F("o", OptFlag("nosuch", 1, c))>>, FALSE)
+    [] name = "MisName2" -> Tmpl(<<F("sel", U8), F("b", CtxSw(0, "nosuch", <<K(0, c)>>, <<>>))>>, FALSE)
     [] name = "MisUp" -> Tmpl(<<F("sel", U8), F("b", CtxSw(3, "sel", <<K(0, c)>>, <<>>))>>, FALSE)
     [] name = "MisFlagS" -> [k |-> "flagswitch", f |-> S8, ch |-> <<[bit |-> 1, name |-> "A", t |-> c], [bit |-> 128, name |-> "H", t |-> U8]>>]
     [] name = "MisEnumW" -> [k |-> "enumswitch", e |-> U64, ch |-> <<K(0, c), K(1, U16)>>]
@@ -266,12 +268,17 @@ DecTotal == \A j \in 1..Len(rows) : \A e \in Es :
 \* the encoder is total too: a value of any shape is classified (domain / refused / outside the domain)
 Shapes == {[i |-> 0], [i |-> -1], [b |-> <<1>>], [s |-> <<65>>], None, [l |-> <<>>], [l |-> <<[i |-> 0], [i |-> 0]>>], [d |-> <<>>],
            [d |-> <<[n |-> "sel", v |-> [i |-> -1]], [n |-> "o", v |-> None], [n |-> "b", v |-> [i |-> 0]]>>],
-           [d |-> <<[n |-> "a", v |-> [i |-> -1]], [n |-> "b", v |-> [b |-> <<>>]]>>], [d |-> <<[n |-> "a", v |-> [b |-> <<>>]]>>],
+           [d |-> <<[n |-> "a", v |-> [i |-> -1]], [n |-> "b", v |-> [i |-> 0]]>>], [d |-> <<[n |-> "a", v |-> [b |-> <<>>]]>>],
+           [tag |-> [i |-> 77], val |-> None],
            [tag |-> [i |-> -1], val |-> None], [tag |-> None, val |-> None], [w |-> <<1, 0, 0, 0, 0, 0, 0, 0, 0>>], [f |-> <<0>>], [u |-> <<0>>]}
 EncTotal == \A w \in Shapes : \A e \in Es : Enc(tree, w, e).st \in {"ok", "rej", "bad"}
 \* ... and on arbitrary bytes, for every tree (also the ill-formed ones)
-Probes == {<<>>, <<0>>, <<1, 1, 0, 5>>, <<255, 255, 255, 255, 255>>, <<2, 0, 1, 0, 0, 0, 0, 9>>, <<128, 3, 65, 0, 66, 10, 1, 1, 1, 0>>}
-DecProbe == \A p \in Probes : \A e \in Es : Dec(tree, p, e).ok \in BOOLEAN
+\* (bytes that read as a huge element count are offered only where no collection can take them)
+Probes(t) == {<<>>, <<0>>, <<1, 1, 0, 5>>, <<2, 0, 1, 0, 0, 0, 0, 9>>, <<1, 2, 3, 0, 2, 1, 1, 1, 1, 0>>}
+             \cup (IF t.k \in {"bytearray", "enumswitch", "flagswitch"} \/ (t.k = "tuple" /\ t.cs[1].k = "bitfield")
+                   THEN {<<255, 255, 255, 255, 255, 255, 255, 255, 255>>, <<128, 3, 65, 0, 66, 10, 1, 1, 1, 0>>} ELSE {})
+             \cup (IF t.k = "template" THEN {<<255, 0, 0, 0, 0, 0, 0, 0, 0, 0>>} ELSE {})
+DecProbe == \A p \in Probes(tree) : \A e \in Es : Dec(tree, p, e).ok \in BOOLEAN
 \* the byte order changes bytes, never acceptance or length
 EndianAgnostic == \A j \in 1..Len(rows) : rows[j].st = rows[j].lst /\ Len(rows[j].b) = Len(rows[j].lb)
 =============================================================================
